@@ -56,6 +56,41 @@ func TestC05(t *testing.T) {
 					Spec: sim.ByzSpec{Strat: strat, To: uint16(1<<uint(cfg.N) - 1), V: uint64(rapid.IntRange(0, 3).Draw(t, "dv")), P: p}})
 			}
 		}
+		// the order of the timely suffix is free (all messages before any timer): some reordering, messages of one kind to one
+		// member delivered last, Byzantine members that help only some members the moment a correct leader proposes
+		var correct []int
+		for i := 0; i < cfg.N; i++ {
+			if !isInInts(cfg.Byz, i) {
+				correct = append(correct, i)
+			}
+		}
+		switch rapid.IntRange(0, 3).Draw(t, "suffix-order") {
+		case 1:
+			c.Order = rapid.SliceOfN(rapid.SampledFrom([]int{0, 0, 0, 1, 1, 2, 3, 5}), 1, 40).Draw(t, "order")
+		case 2, 3:
+			for k := rapid.IntRange(1, 2).Draw(t, "ndefer"); k > 0; k-- {
+				r := sim.HoldRule{Types: uint8(1 << uint(rapid.SampledFrom([]int{sim.UP, sim.UP, sim.UC, sim.UPP, sim.UNV, sim.UVC}).Draw(t, "defer-kind"))), To: 0xffff, From: 0xffff}
+				if rapid.IntRange(0, 3).Draw(t, "defer-to-one") > 0 {
+					r.To = 1 << uint(rapid.SampledFrom(correct).Draw(t, "defer-to"))
+				}
+				if rapid.IntRange(0, 3).Draw(t, "defer-from-one") == 0 {
+					r.From = 1 << uint(rapid.SampledFrom(correct).Draw(t, "defer-from"))
+				}
+				c.Defer = append(c.Defer, r)
+			}
+			if rapid.Bool().Draw(t, "order-too") {
+				c.Order = rapid.SliceOfN(rapid.SampledFrom([]int{0, 0, 0, 1, 2}), 1, 20).Draw(t, "order")
+			}
+		}
+		if len(cfg.Byz) > 0 && rapid.IntRange(0, 2).Draw(t, "react") == 0 {
+			c.React = &sim.Reactive{CommitsOnly: rapid.Bool().Draw(t, "react-commits-only"), To: uint16(1<<uint(cfg.N) - 1)}
+			if rapid.IntRange(0, 3).Draw(t, "react-to-one") > 0 {
+				c.React.To = 1 << uint(rapid.SampledFrom(correct).Draw(t, "react-to"))
+				if len(c.Defer) > 0 && rapid.Bool().Draw(t, "react-to-deferred") {
+					c.React.To = c.Defer[0].To
+				}
+			}
+		}
 		for x := range ev.ExcludedTriggers("C05") {
 			c.Disabled = append(c.Disabled, x)
 		}
@@ -71,6 +106,15 @@ func TestC05(t *testing.T) {
 		col.Class("judged")
 		if res.NoTimer > 0 {
 			col.Class("decider-without-armed-timer")
+		}
+		if res.Reordered > 0 || len(c.Defer) > 0 {
+			col.Class("suffix-reordered")
+		}
+		if res.JoinedByQuorum {
+			col.Class("second-clause-judged")
+		}
+		if res.Reacted > 0 {
+			col.Class("suffix-selective-byzantine-help")
 		}
 		col.Class(fmt.Sprintf("firings=%d", minInt(res.Firings, 12)))
 		col.Class(fmt.Sprintf("view-spread=%d", minU(res.Vmax-res.Vmin, 6)))
